@@ -6,6 +6,7 @@ import (
 	"go/types"
 	"regexp"
 	"sort"
+	"strconv"
 	"strings"
 	"unicode"
 	"unicode/utf8"
@@ -136,6 +137,16 @@ func (c Cache) Imports() []string {
 	}
 	sort.Strings(imports) // map iteration order is random : keep the output reproducible
 	return imports
+}
+
+// ConstLiteral returns the literal of an enum value, as understood by
+// Typescript and Dart. Contrary to [constant.Value.String], it does not
+// shorten long strings.
+func ConstLiteral(val constant.Value) string {
+	if val.Kind() == constant.String {
+		return strconv.Quote(constant.StringVal(val))
+	}
+	return val.String()
 }
 
 var reEnums = regexp.MustCompile(`#\[(\w+)\.(\w+)\]`)
